@@ -24,7 +24,7 @@ from harness import common, scriptlib as sl
 
 PROP = 'C05'
 THEOREMS = ['C05_history', 'C05_history_model', 'C05_const', 'C05_sum', 'C05_fixed_len', 'C05_edit_distance',
-            'C05_invariant', 'C05_model_partial', 'C05_final_cost_partial', 'C05_quiet_irrelevant_partial']
+            'C05_invariant', 'C05_multiset', 'C05_collection', 'C05_model', 'C05_final_cost_partial', 'C05_quiet_irrelevant']
 MODELS = ['theories/ApiSpec.vo', 'theories/ApiModel.vo']
 HEADER = ('From Coq Require Import ZArith List Bool.\nRequire Import GT.PyBase GT.Data GT.ScriptSpec GT.ApiSpec.\n'
           'Import ListNotations.\nOpen Scope Z_scope.\n')
@@ -1192,11 +1192,9 @@ def check(tier, seed):
                               for i in range(0, len(ok), max(1, len(ok) // 5))][:6]
         run.cov['oracle_answers_differing_between_runs_of_a_pair'] = stats.get('oracle_unstable_pairs', 0)
         run.cov['oracle_answers_differing_first'] = stats.get('oracle_unstable_first', [])
-        run.cov['classes_modelled_without_proved_invariant'] = ['MultiSetEdit + WeightedBipartiteMatcher (AMSet)',
-                                                                'EditCollection / FixedKeyDictNodeEdit (AColl)']
-        run.assumptions = ['MultiSetEdit / WeightedBipartiteMatcher and EditCollection / FixedKeyDictNodeEdit are modelled call by call and tied '
-                           'by corr_C05 (outcomes + final script), but their class invariants are not proved: the closing theorems '
-                           '(C05_model_partial etc.) carry the hypothesis `covered` = no mapping node in the first document; search has no model',
+        run.cov['classes_modelled_without_proved_invariant'] = []
+        run.assumptions = ['search (IterativeTighteningSearch / PossibleEdits) has no model; the final-cost-is-the-script-cost theorem '
+                           '(C05_final_cost_partial) is proved for documents without DictNode / MultiSetNode only (lists, strings, key/value pairs, FixedKeyDictNodes)',
                            'bounds.make_distinct (number of tighten_bounds() calls per edge) and the assignment solver are oracle inputs keyed by '
                            '(from_nodes, to_nodes), recorded per run from the implementation; a run in which one key received two answers has no '
                            'correspondence; whether the assignment of a key is the same in every run of a pair is reported (oracle_stable_C05)',
